@@ -121,12 +121,21 @@ def check(case):
             seen[gk(w)] = k + 1
         other, _ = _run(case, dict(spec, winds=fixed))
         _same(r, "C12:order-of-given-list-matters", base, other, f"winds {ws} vs permuted {fixed}")
+        # the same list assigned through the Shot.winds setter instead of the constructor
+        sh_set = build.shot(dict(spec, winds=None))
+        sh_set.winds = build.winds({"winds": fixed})
+        other_set, _ = _run(case, None, shot_obj=sh_set)
+        _same(r, "C12:winds-setter-differs-from-constructor", other, other_set, f"winds {fixed} given to the constructor vs assigned to Shot.winds")
         nt = nt and fixed != ws
     elif rel == "null":
         none_rows, _ = _run(case, dict(spec, winds=None))
         empty_rows, _ = _run(case, dict(spec, winds=[]))
         zero_rows, _ = _run(case, dict(spec, winds=case["zeros"]))
         _same(r, "C12:empty-list-differs-from-no-wind", none_rows, empty_rows, "winds=None vs winds=[]", 1e-12)
+        sh_def = build.shot(dict(spec, winds=None))
+        sh_def.winds = [pb.Wind()]
+        def_rows, _ = _run(case, None, shot_obj=sh_def)
+        _same(r, "C12:default-wind-differs-from-no-wind", none_rows, def_rows, "winds=None vs winds=[Wind()]", 1e-12)
         _same(r, "C12:zero-speed-wind-differs-from-no-wind", none_rows, zero_rows, f"winds=None vs zero-speed winds {case['zeros']}", 1e-12)
         nt = True
     elif rel == "beyond-last":
@@ -144,6 +153,15 @@ def check(case):
                         if w[2] == last:
                             w[2] = 1e8
                     other2, _ = _run(case, dict(spec, winds=ext))
+                    # "to the end": the until-distance left out (documented default), or given as max_distance_feet
+                    V_, A_, D_ = pb.Velocity, pb.Angular, pb.Distance
+                    for how in ("default", "max_distance_feet"):
+                        sh3 = build.shot(dict(spec, winds=None))
+                        sh3.winds = [(pb.Wind(V_.FPS(w[0]), A_.Radian(w[1])) if how == "default" else
+                                      pb.Wind(V_.FPS(w[0]), A_.Radian(w[1]), max_distance_feet=1e8)) if w[2] == 1e8 else
+                                     pb.Wind(V_.FPS(w[0]), A_.Radian(w[1]), D_.Foot(w[2])) for w in ext]
+                        other3, _ = _run(case, None, shot_obj=sh3)
+                        _same(r, f"C12:open-ended-last-segment:{how}", other2, other3, f"last segment of {ext} until 1e8 ft vs until-distance left to {how}")
                     if base and other2 and base[-1][7] == other2[-1][7]:
                         r.bad("C12:last-segment-persists", f"extending the last segment of {ws} beyond {last!r} ft changes nothing: wind persists after the last segment")
                     nt = True
